@@ -112,6 +112,7 @@ func init() {
 				if vpS(in, "host") == "off" {
 					base.Host = "10.9.8.7:4180"
 				}
+				base.TLS = vpS(in, "conn") == "tls"
 				with := base
 				hm := vpM(in, "hdr")
 				var names []string
